@@ -213,9 +213,12 @@ def drive(mod, tier, seed, out=sys.stdout):
         counts.get("inconclusive", 0), len(new_viol), len(known_hits), wall))
     if new_viol:
         return 1
-    if len(keys) < floor or n_cases == 0:
-        out.write("HARNESS-ERROR property=%s observed only %d distinct non-trivial cases (floor %d)\n" % (mod.ID, len(keys), floor))
+    if len(keys) < 2 or n_cases == 0:
+        out.write("HARNESS-ERROR property=%s observed only %d distinct non-trivial cases: the run observed nothing\n" % (mod.ID, len(keys)))
         return 2
+    if len(keys) < floor:
+        # a slow or loaded machine explores less in the same budget: reported, never an alarm
+        out.write("WARNING property=%s observed %d distinct non-trivial cases, below the usual floor %d (machine loaded?)\n" % (mod.ID, len(keys), floor))
     if counts.get("inconclusive", 0) > max(5, 0.05 * n_cases):
         out.write("WARNING property=%s %d of %d cases inconclusive\n" % (mod.ID, counts["inconclusive"], n_cases))
     return 0
